@@ -103,7 +103,11 @@ def run(chk):
                     sol = sympy.solve(sympy.Eq(sx, s), X)
                     if sol and abs(sol[0]) <= 1:
                         xs.append(sol[0])
-                xs += [s for s in SAMPLES if s not in xs]      # points whose basis is written directly in x
+                if not xs:
+                    # no abscissa of the domain maps onto the canonical support: the basis of this point is written directly in x
+                    # (the level-0/1 functions of the semi-local rules), the samples are abscissae themselves
+                    sx = X
+                    xs = list(SAMPLES)
                 for xv in xs:
                     sv = sympy.simplify(sx.subs(X, xv))
                     if sv == 0:
@@ -304,6 +308,13 @@ def run(chk):
         if not got:
             raise AnalysisBroken("C05-D5: the gradient accumulation of %s is no longer in a foldable form" % name)
         nprod += got
+    try:
+        nfw = product.fourier_weights_rule(chk, db, "C05-D5.product")
+    except NotClosedForm as e:
+        raise AnalysisBroken("C05-D5: %s" % e)
+    if not nfw:
+        raise AnalysisBroken("C05-D5: the Fourier differentiation weights were not folded")
+    nprod += nfw
     chk.floor("C05-D5.product", nprod, 30, "folded product-rule nests (function x dimension)")
 
     # the chain-rule clauses are the same obligations as in C10: evaluate them here as well
